@@ -61,6 +61,18 @@ LISP_FNS = {
 CONFLATE = [False]
 
 
+def eqv_model(a, b):
+    """equality as the stages that compare neighbours (dedupe, partition-by) see it. Faithful: eqv. Under the defect model of the recorded
+    finding C05/bool-num-conflation/in-collection, two collections are equal when their elements are equal with false ~ 0 and true ~ 1
+    (top-level scalars are compared faithfully: (= false 0) is false)."""
+    if CONFLATE[0] and isinstance(a, (list, tuple)) and isinstance(b, (list, tuple)):
+        try:
+            return a == b
+        except Exception:
+            return eqv(a, b)
+    return eqv(a, b)
+
+
 def ref_stage(st, xs):
     name, p = st
     if name == "map":
@@ -108,7 +120,7 @@ def ref_stage(st, xs):
         out = []
         for x in xs:
             k = PY_FNS[p](x)
-            if out and eqv(out[-1][0], k):
+            if out and eqv_model(out[-1][0], k):
                 out[-1][1].append(x)
             else:
                 out.append((k, [x]))
@@ -131,7 +143,7 @@ def ref_stage(st, xs):
     if name == "dedupe":
         out = []
         for x in xs:
-            if not out or not eqv(out[-1], x):
+            if not out or not eqv_model(out[-1], x):
                 out.append(x)
         return out
     if name == "mapcat":
@@ -322,14 +334,14 @@ def worker(spec, out):
                 continue
             if not eqv(got, want):
                 key = f"C07/{fn_set(pipe)}/{form}/{input_class(xs)}"
-                if any(st[0] == "distinct" for st in pipe):
+                if any(st[0] in ("distinct", "dedupe", "partition-by") for st in pipe):
                     CONFLATE[0] = True
                     try:
                         alt = ref_pipe(pipe, xs)
                     finally:
                         CONFLATE[0] = False
                     if eqv(got, alt):
-                        key = "C07/distinct/bool-num-conflation"
+                        key = "C07/distinct/bool-num-conflation" if any(st[0] == "distinct" for st in pipe) else "C07/nested-equality/bool-num-conflation"
                 out.violation(key, {"pipeline": f["xf_text"] if form != "lazy" else f["lazy_text"], "form": form, "input": xs, "expected": want, "got": got}, case)
 
     class PullBudget(Exception):
